@@ -855,3 +855,31 @@ MUTANTS += [
       edits=[('src/core/arch/x86_64/bigint.s', 'embedded_pairing_core_arch_x86_64_fpbase_384_add_final_copy:\n    movq %rax, (%rdi)\n    movq %rbx, 8(%rdi)', 'embedded_pairing_core_arch_x86_64_fpbase_384_add_final_copy:\n    movq %rbx, 8(%rdi)\n    movq %rax, (%rdi)')]),
  dict(name='c03-benign-asm-seeded-add-lexicographic-chain', prop='C03', benign=True, expect='', patch='selftest/fixes/benign-fpadd-lexicographic.patch'),
 ]
+# ---- R-WORDALG on the AArch64 sources
+MUTANTS += [
+ dict(name='c03-a64-mul-adcs-to-adds-drops-carry-in', prop='C03', expect='wordalg|embedded_pairing_core_arch_aarch64',
+      edits=[('src/core/arch/aarch64/multiply.s', '    adcs \\dst, \\dst, \\scratch\n    adcs \\carry_out, \\carry_out, xzr\n    adds \\dst, \\dst, \\carry_in', '    adds \\dst, \\dst, \\scratch\n    adcs \\carry_out, \\carry_out, xzr\n    adds \\dst, \\dst, \\carry_in')]),
+ dict(name='c03-a64-add-returns-borrow-sense', prop='C03', expect='wordalg|embedded_pairing_core_arch_aarch64_bigint_384_add',
+      edits=[('src/core/arch/aarch64/bigint.s', 'cset x0, cs', 'cset x0, cc')]),
+]
+MUTANTS += [
+ dict(name='c03-a64-reduce-compare-wrong-register', prop='C03', expect='wordalg|embedded_pairing_core_arch_aarch64_fpbase_384_montgomery_reduce',
+      edits=[('src/core/arch/aarch64/multiply.s', '    cmp x13, x22\n    b.hi embedded_pairing_core_arch_aarch64_fpbase_384_montgomery_reduce_final_subtract', '    cmp x12, x22\n    b.hi embedded_pairing_core_arch_aarch64_fpbase_384_montgomery_reduce_final_subtract')]),
+ dict(name='c03-a64-multiply-tail-lo-hi-swapped-at-word-3', prop='C03', expect='wordalg|embedded_pairing_core_arch_aarch64_fpbase_384_multiply',
+      edits=[('src/core/arch/aarch64/multiply.s', '    cmp x26, x12\n    b.hi embedded_pairing_core_arch_aarch64_fpbase_384_multiply_final_subtract\n    b.lo embedded_pairing_core_arch_aarch64_fpbase_384_multiply_final_copy',
+              '    cmp x26, x12\n    b.lo embedded_pairing_core_arch_aarch64_fpbase_384_multiply_final_subtract\n    b.hi embedded_pairing_core_arch_aarch64_fpbase_384_multiply_final_copy')]),
+]
+# ---- round-6 seeded changes
+MUTANTS += [
+ dict(name='seed-C08-first-line-overwrites-accumulator', prop='C08', patch='seeded/C08-first-line-overwrites-accumulator/patch.diff', expect='ccl|uniform'),
+ dict(name='seed-C12-hidden-slot-keeps-component', prop='C12', patch='seeded/C12-qualifykey-hidden-slot-keeps-delegation-component/patch.diff', expect='VIOLATION property=C12'),
+ dict(name='seed-C13-sign-fill-skips-omitted', prop='C13', patch='seeded/C13-sign-fill-skips-omitted-attribute/patch.diff', expect='VIOLATION property=C13'),
+ dict(name='seed-C15-setlength-ignores-zero', prop='C15', patch='seeded/C15-setlength-ignores-zero-slots/patch.diff', expect='VIOLATION property=C15'),
+ dict(name='seed-C16-pairing-cache-by-address', prop='C16', patch='seeded/C16-encrypt-pairing-cache-by-address/patch.diff', expect='VIOLATION property=C16'),
+ dict(name='seed-C16-pairing-cache-c20', prop='C20', patch='seeded/C16-encrypt-pairing-cache-by-address/patch.diff', expect='R-EFFECT'),
+ dict(name='seed-C17-length-fixed-part-underflow', prop='C17', patch='seeded/C17-length-fixed-part-underflow/patch.diff', expect='VIOLATION property=C17'),
+ dict(name='seed-C18-fq12-multiply-scratch-in-output', prop='C18', patch='seeded/C18-fq12-multiply-scratch-in-output/patch.diff', expect='R-ALIAS'),
+ dict(name='seed-C18-fq12-multiply-c04', prop='C04', patch='seeded/C18-fq12-multiply-scratch-in-output/patch.diff', expect='R-POLY'),
+ dict(name='seed-C19-core-h-overaligned', prop='C19', patch='seeded/C19-core-h-overaligned-word-structs/patch.diff', expect='R-LAYOUT'),
+ dict(name='seed-C20-sampler-static-scratch', prop='C20', patch='seeded/C20-generator-sampler-static-scratch/patch.diff', expect='R-EFFECT'),
+]
